@@ -56,7 +56,7 @@ func genC19(t *core.Tape, tier string) *Scenario {
 		}
 		stdPrograms(t, p)
 		if t.Bool(3, 5, "panics") {
-			p.HPanic = &PanicPlan{Kind: t.Choose(5, "panic.kind"), Text: "boom " + string(t.Bytes(3, 1, "ptext"))}
+			p.HPanic = &PanicPlan{Kind: t.Choose(6, "panic.kind"), Text: "boom " + string(t.Bytes(3, 1, "ptext"))}
 			at := t.Choose(len(p.HProg)+1, "panic.at")
 			prog := append([]HOp(nil), p.HProg[:at]...)
 			if t.Bool(1, 4, "panic.after.ctx.done") {
@@ -170,7 +170,7 @@ func checkC19(w *World, st core.Status, r *RunResult) []Violation {
 		case p.HPanic.Kind == 0:
 			_, isNilErr := got.(*runtime.PanicNilError)
 			ok = got == nil || isNilErr
-		case p.HPanic.Kind == 1:
+		case p.HPanic.Kind == 1 || p.HPanic.Kind == 5:
 			ok = got == want // same error value
 		default:
 			ok = reflect.DeepEqual(got, want)
